@@ -402,6 +402,19 @@ func (ex *Exec) applyContract(st *State, fr *Frame, sp *FuncSpec, fn *ssa.Functi
 		ex.emit(st, "pre", fmt.Sprintf("%s:%s@%s", sp.Name, clauseLabel(c, i), ex.callSite(fr, pos)), t, pos, mergeProps(sp.Props, c.Props))
 		st.assume(t)
 	}
+	// recursion: a callee with a termination measure, called from a function with one, must be
+	// called with a strictly smaller measure (lexicographic, bounded below by 0)
+	if top := ex.topFrame(st); len(sp.Decreases) > 0 && len(top.Measure) > 0 && ex.pure == nil {
+		var now []*Term
+		for _, d := range sp.Decreases {
+			now = append(now, ex.evalInt(env, d))
+		}
+		n := len(now)
+		if len(top.Measure) < n {
+			n = len(top.Measure)
+		}
+		ex.emit(st, "decreases", "call:"+sp.Name+"@"+ex.callSite(fr, pos), lexLess(now[:n], top.Measure[:n]), pos, mergeProps(sp.Props, nil))
+	}
 	old := st.snapshotFull()
 	for _, name := range sp.Escapes {
 		if tv, ok := env.vars[name]; ok {
